@@ -336,6 +336,15 @@ theorem updFirst_filter {α} (P : α → Bool) (f : α → α) (r : α → Bool)
     · simp [hP, List.filter_cons, (h a hP).1, (h a hP).2]
     · simp only [hP, Bool.false_eq_true, if_false, List.filter_cons, ih]
 
+theorem updFirst_fst' (us : List (End × CEnd)) (e : End) (p : CEnd) :
+    (updFirst (fun u => u.1 == e) (fun _ => (e, p)) us).map Prod.fst = us.map Prod.fst := by
+  induction us with
+  | nil => rfl
+  | cons u us ih =>
+    by_cases hu : u.1 = e
+    · simp [updFirst, hu]
+    · simp [updFirst, beq_eq_false_iff_ne.2 hu, ih]
+
 theorem modifyConnector_filter (q : List Action) (c : Nat) (e : End) (p : CEnd) (f : Bool) :
     (modifyConnector q c e p f).filter notConn = q.filter notConn := by
   unfold modifyConnector
@@ -527,6 +536,44 @@ theorem attachedEnds_mem (sc : Scene) (m : Nat) (t : Nat × End × CEnd) (ht : t
       · simp only [List.mem_singleton] at hm; subst hm; exact ⟨rfl, hs⟩
       · simp at hm
 
+/-- a list of (connector, end, ConnEnd) each of which is an end that a connector object of the scene has -/
+def EndsOfScene (sc : Scene) (ts : List (Nat × End × CEnd)) : Prop :=
+  ∀ t ∈ ts, ∃ k ∈ sc.conns, k.id = t.1 ∧ k.getEnd t.2.1 = some t.2.2
+
+/-- pin-move `modifyConnector` calls for ANY list of ends the scene's connectors have, in any order, with
+    repetitions: the last loop's effect on every connector is unchanged -/
+theorem G_refresh (sc : Scene) (hu : ConnUniq sc) (c : Nat) (ts : List (Nat × End × CEnd)) (hall : EndsOfScene sc ts)
+    (q : List Action) :
+    G c (ts.foldl (fun q t => modifyConnector q t.1 t.2.1 t.2.2 true) q) (findConn sc c) = G c q (findConn sc c) := by
+  induction ts generalizing q with
+  | nil => rfl
+  | cons t ts ih =>
+    simp only [List.foldl_cons]
+    rw [ih (fun t' ht' => hall t' (List.mem_cons_of_mem _ ht'))]
+    obtain ⟨k, hk, hid, hp⟩ := hall t (List.mem_cons_self ..)
+    rw [← hid]
+    exact G_modifyConnector sc hu c q k hk _ _ hp
+
+theorem refresh_filter (q : List Action) (ts : List (Nat × End × CEnd)) :
+    (ts.foldl (fun q t => modifyConnector q t.1 t.2.1 t.2.2 true) q).filter notConn = q.filter notConn := by
+  induction ts generalizing q with
+  | nil => rfl
+  | cons t ts ih => simp only [List.foldl_cons, ih, modifyConnector_filter]
+
+/-- … hence so is everything the transaction shows -/
+theorem view_runPasses_refresh (sc : Scene) (hu : ConnUniq sc) (ts : List (Nat × End × CEnd)) (hall : EndsOfScene sc ts)
+    (q : List Action) :
+    view (runPasses sc (ts.foldl (fun q t => modifyConnector q t.1 t.2.1 t.2.2 true) q)) = view (runPasses sc q) := by
+  have ho : (runPasses sc (ts.foldl (fun q t => modifyConnector q t.1 t.2.1 t.2.2 true) q)).obsts = (runPasses sc q).obsts := by
+    unfold runPasses
+    rw [obsts_fold3, obsts_fold3]
+    rw [foldl_filter_noop pass1One notConn pass1One_conn (ts.foldl _ q),
+        foldl_filter_noop pass2One notConn pass2One_conn (ts.foldl _ q), refresh_filter,
+        ← foldl_filter_noop pass1One notConn pass1One_conn q, ← foldl_filter_noop pass2One notConn pass2One_conn q]
+  apply AScene.ext'
+  · intro id; simp only [view, findObst_congr ho id]
+  · intro c; simp only [view, findConn_runPasses, G_refresh sc hu c ts hall]
+
 theorem G_moveAttachedConns (sc : Scene) (hu : ConnUniq sc) (c : Nat) (q : List Action) (m : Nat) :
     G c (moveAttachedConns sc q m) (findConn sc c) = G c q (findConn sc c) := by
   unfold moveAttachedConns
@@ -571,6 +618,153 @@ theorem view_runPasses_genPinMoves (sc : Scene) (hu : ConnUniq sc) (q : List Act
   apply AScene.ext'
   · intro id; simp only [view, findObst_runPasses_genPinMoves]
   · intro c; simp only [view, findConn_runPasses_genPinMoves sc hu]
+
+/-! ### completeness of the refresh: every end attached to a moved obstacle has an update in the list the last
+    loop runs over (so every end that `Obstacle::makeInactive` disconnected in the first loop is re-attached) -/
+
+/-- the list holds a `ConnChange` of connector `c` with an update for end `e` -/
+def Covered (q : List Action) (c : Nat) (e : End) : Prop :=
+  ∃ a ∈ q, a.kind = .connChange ∧ a.id = c ∧ ∃ u ∈ a.conns, u.1 = e
+
+theorem addConnEndUpdate_has (us : List (End × CEnd)) (e : End) (p : CEnd) (f : Bool) :
+    ∃ u ∈ addConnEndUpdate us e p f, u.1 = e := by
+  have hfst := updFirst_fst' us e p
+  unfold addConnEndUpdate
+  by_cases ha : us.any (·.1 == e) = true
+  · simp only [ha, if_true]
+    obtain ⟨u, hu, hue⟩ := List.any_eq_true.1 ha
+    have hue' : u.1 = e := by simpa using hue
+    cases f with
+    | true => exact ⟨u, by simpa using hu, hue'⟩
+    | false =>
+      simp only [Bool.not_false, if_true]
+      have : e ∈ (updFirst (fun u => u.1 == e) (fun _ => (e, p)) us).map Prod.fst := by
+        rw [hfst]; exact List.mem_map.2 ⟨u, hu, hue'⟩
+      obtain ⟨v, hv, hve⟩ := List.mem_map.1 this
+      exact ⟨v, hv, hve⟩
+  · simp only [ha, Bool.false_eq_true, if_false]
+    exact ⟨(e, p), by simp, rfl⟩
+
+theorem addConnEndUpdate_keeps (us : List (End × CEnd)) (e : End) (p : CEnd) (f : Bool) (e' : End)
+    (h : ∃ u ∈ us, u.1 = e') : ∃ u ∈ addConnEndUpdate us e p f, u.1 = e' := by
+  have hfst := updFirst_fst' us e p
+  obtain ⟨u, hu, hue⟩ := h
+  unfold addConnEndUpdate
+  split
+  · split
+    · have : e' ∈ (updFirst (fun u => u.1 == e) (fun _ => (e, p)) us).map Prod.fst := by
+        rw [hfst]; exact List.mem_map.2 ⟨u, hu, hue⟩
+      obtain ⟨v, hv, hve⟩ := List.mem_map.1 this
+      exact ⟨v, hv, hve⟩
+    · exact ⟨u, hu, hue⟩
+  · exact ⟨u, List.mem_append_left _ hu, hue⟩
+
+theorem updFirst_mem {α} (P : α → Bool) (f : α → α) (l : List α) (a : α) (ha : a ∈ l) :
+    a ∈ updFirst P f l ∨ (P a = true ∧ f a ∈ updFirst P f l) := by
+  induction l with
+  | nil => cases ha
+  | cons b l ih =>
+    unfold updFirst
+    by_cases hP : P b = true
+    · simp only [hP, if_true]
+      rcases List.mem_cons.1 ha with rfl | ha'
+      · exact Or.inr ⟨hP, List.mem_cons_self ..⟩
+      · exact Or.inl (List.mem_cons_of_mem _ ha')
+    · simp only [hP, Bool.false_eq_true, if_false]
+      rcases List.mem_cons.1 ha with rfl | ha'
+      · exact Or.inl (List.mem_cons_self ..)
+      · rcases ih ha' with h | h
+        · exact Or.inl (List.mem_cons_of_mem _ h)
+        · exact Or.inr ⟨h.1, List.mem_cons_of_mem _ h.2⟩
+
+theorem updFirst_first {α} (P : α → Bool) (f : α → α) (l : List α) (h : l.any P = true) :
+    ∃ a ∈ l, P a = true ∧ f a ∈ updFirst P f l := by
+  induction l with
+  | nil => simp at h
+  | cons b l ih =>
+    unfold updFirst
+    by_cases hP : P b = true
+    · simp only [hP, if_true]
+      exact ⟨b, List.mem_cons_self .., hP, List.mem_cons_self ..⟩
+    · simp only [hP, Bool.false_eq_true, if_false]
+      have : l.any P = true := by simpa [List.any_cons, hP] using h
+      obtain ⟨a, ha, hPa, hfa⟩ := ih this
+      exact ⟨a, List.mem_cons_of_mem _ ha, hPa, List.mem_cons_of_mem _ hfa⟩
+
+theorem modifyConnector_covers (q : List Action) (c : Nat) (e : End) (p : CEnd) (f : Bool) :
+    Covered (modifyConnector q c e p f) c e := by
+  unfold modifyConnector
+  cases hh : hasAct q .connChange c with
+  | true =>
+    simp only [if_true]
+    have hany : q.any (fun a => a.kind == .connChange && a.id == c) = true := by
+      unfold hasAct at hh
+      obtain ⟨a, ha⟩ := Option.isSome_iff_exists.1 hh
+      obtain ⟨ham, hak, hai⟩ := findAct_some ha
+      exact List.any_eq_true.2 ⟨a, ham, by simp [hak, hai]⟩
+    obtain ⟨a, _, hPa, hfa⟩ := updFirst_first _ (fun a => { a with conns := addConnEndUpdate a.conns e p f }) q hany
+    simp only [Bool.and_eq_true, beq_iff_eq] at hPa
+    exact ⟨_, hfa, hPa.1, hPa.2, addConnEndUpdate_has a.conns e p f⟩
+  | false =>
+    simp only [Bool.false_eq_true, if_false]
+    exact ⟨_, List.mem_append_right _ (List.mem_singleton.2 rfl), rfl, rfl, (e, p), by simp, rfl⟩
+
+theorem modifyConnector_mono (q : List Action) (c : Nat) (e : End) (p : CEnd) (f : Bool) (c' : Nat) (e' : End)
+    (h : Covered q c' e') : Covered (modifyConnector q c e p f) c' e' := by
+  obtain ⟨a, ha, hk, hi, hu⟩ := h
+  unfold modifyConnector
+  split
+  · rcases updFirst_mem (fun a => a.kind == .connChange && a.id == c)
+        (fun a => { a with conns := addConnEndUpdate a.conns e p f }) q a ha with h1 | h1
+    · exact ⟨a, h1, hk, hi, hu⟩
+    · exact ⟨_, h1.2, hk, hi, addConnEndUpdate_keeps a.conns e p f e' hu⟩
+  · exact ⟨a, List.mem_append_left _ ha, hk, hi, hu⟩
+
+theorem refresh_mono (ts : List (Nat × End × CEnd)) (q : List Action) (c' : Nat) (e' : End) (h : Covered q c' e') :
+    Covered (ts.foldl (fun q t => modifyConnector q t.1 t.2.1 t.2.2 true) q) c' e' := by
+  induction ts generalizing q with
+  | nil => exact h
+  | cons t ts ih => exact ih _ (modifyConnector_mono q _ _ _ _ c' e' h)
+
+theorem refresh_covers (ts : List (Nat × End × CEnd)) (q : List Action) (t : Nat × End × CEnd) (ht : t ∈ ts) :
+    Covered (ts.foldl (fun q t => modifyConnector q t.1 t.2.1 t.2.2 true) q) t.1 t.2.1 := by
+  induction ts generalizing q with
+  | nil => cases ht
+  | cons t' ts ih =>
+    simp only [List.foldl_cons]
+    rcases List.mem_cons.1 ht with rfl | ht'
+    · exact refresh_mono ts _ _ _ (modifyConnector_covers q _ _ _ _)
+    · exact ih _ ht'
+
+theorem genPinMoves_covers (sc : Scene) (q : List Action) (a : Action) (ha : a ∈ q) (hk : a.kind = .move)
+    (t : Nat × End × CEnd) (ht : t ∈ attachedEnds sc a.id) : Covered (genPinMoves sc q) t.1 t.2.1 := by
+  unfold genPinMoves
+  have mono : ∀ (l acc : List Action), Covered acc t.1 t.2.1 →
+      Covered (l.foldl (fun acc a => if a.kind == .move then moveAttachedConns sc acc a.id else acc) acc) t.1 t.2.1 := by
+    intro l
+    induction l with
+    | nil => intro acc h; exact h
+    | cons b l ih =>
+      intro acc h
+      simp only [List.foldl_cons]
+      apply ih
+      split
+      · exact refresh_mono _ _ _ _ h
+      · exact h
+  suffices h : ∀ (l acc : List Action), a ∈ l →
+      Covered (l.foldl (fun acc a => if a.kind == .move then moveAttachedConns sc acc a.id else acc) acc) t.1 t.2.1 from
+    h q q ha
+  intro l
+  induction l with
+  | nil => intro acc h; cases h
+  | cons b l ih =>
+    intro acc hmem
+    simp only [List.foldl_cons]
+    rcases List.mem_cons.1 hmem with rfl | hmem'
+    · apply mono
+      simp only [hk, beq_self_eq_true, if_true]
+      exact refresh_covers _ _ t ht
+    · exact ih _ hmem'
 
 /-- **Flush theorem**: the scene produced by `processActions` (sort + three loops) shows exactly
     what the pending queue promised. -/
